@@ -28,7 +28,7 @@ impl Prop for C06 {
         "C06"
     }
     fn cases(&self, tier: Tier) -> u64 {
-        tier.pick(1_000_000, 4_000_000)
+        tier.pick(1_000_000, 40_000_000)
     }
     fn strategy(&self, _tier: Tier) -> BoxedStrategy<Case> {
         (gen::date(), gen::pick(&gen::ANGLE_METHODS))
